@@ -204,9 +204,14 @@ def explore(ctx, drv, model, cases, stats, search=False):
         allcalls += p["calls"]
         if p["classes"] and len(p["classes"][0][1]) > 14 and not A.is_error(p["classes"][0][1]):
             stats["nontrivial"].add(case)
-        if p["oracle"]:
+        inexact = any(t in case for t in ("(d ", "(cd ", " oo", "-oo", "zoo", "nan"))
+        if p["oracle"] and inexact:
+            # the property is about exact operands: floating-point addition / multiplication is not associative;
+            # such multisets only feed the model correspondence
+            stats["inexact_multisets_not_judged"] = stats.get("inexact_multisets_not_judged", 0) + 1
+        elif p["oracle"]:
             noncanon = any(c[3].startswith("0:") for c in p["classes"])
-            cls = classify(op, [c[1] for c in p["classes"]], noncanon) if p["oracle"] == "nonunique" else "eq-but-different-dump"
+            cls = classify(op, [c[1] for c in p["classes"]] + [d for d in p["ops"] if d != "-"], noncanon) if p["oracle"] == "nonunique" else "eq-but-different-dump"
             # all pairwise groupings agree with each other but the n-ary call gives something else
             if p["oracle"] == "nonunique" and sum(1 for c in p["classes"] if c[4][0] > 0) == 1 and any(c[4][0] == 0 for c in p["classes"]):
                 cls += ":nary-differs-from-pairwise"
